@@ -154,7 +154,10 @@ def run_scenario(sc: dict, policy, max_steps=20000):
       def shutter():
         EVENTS.append(dict(ev='Shutdown'))
         srv._request_shutdown()
-        srv._stop_prefetch()
+        # what CourierServer._shutdown_server does once the serving loop has seen the request
+        if srv._shutdown_callback is not None:
+          srv._shutdown_callback()
+        EVENTS.append(dict(ev='ShutdownDone'))
 
       # generators wrap TracedGen so that the prefetch thread can be identified
       for cl in sc['clients']:
